@@ -9,6 +9,7 @@ import (
 	"crypto/x509/pkix"
 	"encoding/json"
 	"fmt"
+	lime "github.com/takenet/lime-go"
 	"hash/fnv"
 	"log"
 	"math/big"
@@ -262,7 +263,11 @@ func Execute(t *testing.T, tape *simrt.Tape, tier string, keepLog bool, maxSim t
 		cfg.PCTDepth = 1 + tape.Draw(4)
 	}
 	cfg.PermIdent = []int{90, 50, 10}[tape.Draw(3)]
-	res := simrt.Run(t, cfg, func() { scen(w) })
+	res := simrt.Run(t, cfg, func() {
+		// package-level state of the library (listener registries and the like) starts afresh
+		lime.VerifResetGlobals()
+		scen(w)
+	})
 	out := RunOut{Res: res, Violations: w.viol, Armed: w.Armed, Counts: w.Counts, NetStats: w.Net.TakeStats(), Probes: simrt.TakeProbes(), Trace: w.Trace, Tape: tape.Rec}
 	if keepLog {
 		out.Log = w.logbuf.String()
